@@ -114,21 +114,46 @@ def r01_1(prog: Program, rep: Report, direction: str):
     return rows, pe, acc
 
 
-def wire_form(prog: Program, cls) -> set[str]:
+def wire_form(prog: Program, cls, exact: bool = False) -> set[str]:
+    """The shapes a marshal routine returns.  With exact=True three shapes are told apart further (R06.1): `cast-raw` (the
+    result of self.origin(val) handed out without its class having been compared with a primitive: an int / float subclass
+    instance), `str-raw` (the result of str(val) likewise: a str subclass whose __str__ returns itself) and `*-unguarded`
+    (an attribute read off the input without the input's class having been tested)."""
     f = C.call_of(prog, cls)
     forms = set()
     if f is None:
         return {"abstract"}
-    def alternatives(tm):
+    def alternatives(tm, conds=()):
         if tm[0] == "ifexp":
-            return alternatives(tm[2]) + alternatives(tm[3])
-        return [tm]
+            return alternatives(tm[2], conds + ((tm[1], True),)) + alternatives(tm[3], conds + ((tm[1], False),))
+        return [(tm, conds)]
 
     rets = []
     for p, r0 in P.returns(P.paths_of(prog, f)):
-        rets += [(p, a) for a in alternatives(r0)]
-    for p, r in rets:
+        rets += [(p, a, extra) for a, extra in alternatives(r0)]
+    for p, r, extra in rets:
         val = ("param", "val")
+        CAST = ("call", C.sattr("origin"), (val,), ())
+        STR = ("call", ("ref", "builtins.str"), (val,), ())
+        atoms = T.derive_atoms(list(p.guards()) + list(extra))
+        class_known = lambda x: any(val_ and a[0] == "cmp" and a[1] == "is" and (("attr", x, "__class__") in a[2:4] or ("call", ("ref", "builtins.type"), (x,), ()) in a[2:4]) for a, val_ in atoms)  # noqa: E731
+        tested = any(val_ and T.is_call_to(a, "builtins.isinstance") and a[2][:1] == (val,) for a, val_ in atoms)
+        if r[0] == "call" and T.refname(r[1]) in ("builtins.bool", "builtins.int", "builtins.float") and r[2] == (CAST,) and not r[3]:
+            forms.add("cast")
+            continue
+        if r[0] == "call" and T.refname(r[1]) in ("builtins.str.__str__", "builtins.str.__getitem__") and r[2][:1] == (STR,):
+            forms.add("str")
+            continue
+        not_primitive = all(any((not val_) and T.is_call_to(a, "builtins.isinstance") and a[2] == (CAST, ("ref", b)) for a, val_ in atoms) for b in ("builtins.int", "builtins.float"))
+        if exact and r == CAST and not class_known(CAST) and not not_primitive:
+            forms.add("cast-raw")
+            continue
+        if exact and r == STR and not class_known(STR):
+            forms.add("str-raw")
+            continue
+        if exact and r in (("attr", val, "value"), ("attr", val, "pattern")) and not tested:
+            forms.add(("enum-value" if r[2] == "value" else "pattern") + "-unguarded")
+            continue
         if r == val:
             forms.add("passthrough")
         elif r == ("const", None):
